@@ -3,22 +3,24 @@
    (Model/RunA64.v step wf-a64, Model/RunRV.v step wf-rv) evaluate the SAME predicates on every program they see.
 
    Besides the guards shared with x86-64 (Sem/WfGuard.v: labels_guard, lin_check_prog, plain names / types) the
-   NUMERIC side conditions are the ranges of the immediates whose value comes from the program.  They are much
-   narrower than on x86-64 (imm32), and two of them are REAL limits of the code generators (findings, docs/C14.md):
+   NUMERIC side conditions are the ranges of the immediates whose value comes from the program:
 
-     AArch64   xtors      a declared type has at most 1024 xtors: the dispatch of `invoke` is `ADD Xt, Xt, #4*k`
-                          (12-bit unsigned immediate, optionally shifted by 12): k <= 1023.  A codata type with
-                          1100 destructors is accepted by the front end and its code is rejected by the assembler.
+     AArch64   xtors      none since the repair of the finding "tag dispatch immediate" (docs/C14.md): the dispatch of
+                          `invoke` was `ADD Xt, Xt, #4*k` for every k (12-bit immediate: encodable only for k <= 1023;
+                          a codata type with 1100 destructors was accepted by the front end and its code rejected by
+                          the assembler); the repaired code synthesises a larger offset in the second scratch register.
+                          The old limit is kept as A64_XTORS_MAX for the regression lemmas about the old code.
                substs     no guard: `ADD X3, X3, #n` (n = copies of one variable - 1) needs n < 4096, which follows from
                           `compile = Ok` - every copy gets a temporary and there are fewer than 281 positions
                           (Proof/CodegenForallLinP.v: targets_bound).
                reach      the routine is shorter than 1 MiB (B.cond / ADR reach +-1 MiB), guaranteed through a
                           two-weight refinement of the size bound of C19 (cg_fine below: 28 + cg_fine_defs 14 74
-                          instructions of 4 bytes; Proof/SizeCodegenFine.v, SizeA64Fine.v).  Real limit: a conditional
-                          whose else branch exceeds 1 MiB gets a B.cond out of range; the guard over-approximates it
-                          (whole routine instead of the single branch distance).
+                          instructions of 4 bytes; Proof/SizeCodegenFine.v, SizeA64Fine.v).  Real limit (known finding
+                          a64-branch-reach): a conditional whose else branch exceeds 1 MiB gets a B.cond out of
+                          range; the guard over-approximates it (whole routine instead of the single branch distance).
                literals   none: MOVZ / MOVN / MOVK synthesise every value from its four half-words.
-     RISC-V    xtors      at most 512 xtors per type: `ADDI X1, Xt, 4*k` (12-bit signed): k <= 511.  Real limit.
+     RISC-V    xtors      fewer than 2^61 xtors per type (the offset 4k is a 64-bit value for `LI`); the old code
+                          (`ADDI X1, Xt, 4k` for every k, 12-bit signed: k <= 511) is kept for the regression lemmas.
                substs     no guard (`ADDI X1, X1, n`, n < 2048): fewer than 28 positions.
                literals   64-bit values (`LI`).
    The statement predicate is parametric in the literal test. *)
@@ -82,10 +84,13 @@ Local Close Scope N_scope.
 
 (* ---------- AArch64 ---------- *)
 Definition A64_SUBST_MAX : N := 4096.         (* bound on the copies of one variable, from the capacity: no guard *)
-Definition A64_XTORS_MAX : N := 1024.
+Definition A64_XTORS_MAX : N := 1024.          (* the limit of the code before the repair (regression lemmas) *)
 Definition A64_REACH : N := 262143.          (* instructions: 4 * 262143 = 1048572 bytes *)
 Definition any_lit (z : Z) : bool := true.
-Definition imm_guard_a64 (p : prog) : bool := imm_guardP A64_XTORS_MAX any_lit p.
+Definition old_imm_guard_a64 (p : prog) : bool := imm_guardP A64_XTORS_MAX any_lit p.
+(* the largest number of xtors of a declared type *)
+Definition max_xtors (types : list tydecl) : N :=
+  fold_right (fun d m => N.max (N.of_nat (List.length (txtors d))) m) 0%N types.
 (* the routine is shorter than the reach of B.cond / ADR: 28 instructions of the wrapper + the two-weight bound with
    14 instructions per simple unit (the largest: erase_block) and 74 per unit of a memory operation (29 + 15 * 3:
    acquire_block with the three erase_block of a reused block) *)
@@ -96,13 +101,14 @@ Definition reach_guard_a64 (p : prog) : bool := N.ltb (a64_fine_bound p) A64_REA
 
 Definition wf_guards_a64 (p : prog) : list (string * bool) :=
   [("labels-guard", labels_guard p); ("lin-check", lin_check_prog p);
-   ("plain-names", plain_names_b p); ("plain-types", plain_types_b p); ("imm-guard", imm_guard_a64 p);
-   ("reach-guard", reach_guard_a64 p)]%string.
+   ("plain-names", plain_names_b p); ("plain-types", plain_types_b p); ("reach-guard", reach_guard_a64 p)]%string.
 Definition wf_guard_a64 (p : prog) : bool := forallb snd (wf_guards_a64 p).
 
 (* ---------- RISC-V ---------- *)
 Definition RV_SUBST_MAX : N := 2048.          (* as A64_SUBST_MAX *)
-Definition RV_XTORS_MAX : N := 512.
+Definition RV_XTORS_MAX : N := 2305843009213693952.   (* 2^61 *)
+Definition RV_OLD_XTORS_MAX : N := 512.       (* the limit of the code before the repair (regression lemmas) *)
+Definition old_imm_guard_rv (p : prog) : bool := imm_guardP RV_OLD_XTORS_MAX lit64 p.
 Definition imm_guard_rv (p : prog) : bool := imm_guardP RV_XTORS_MAX lit64 p.
 
 Definition wf_guards_rv (p : prog) : list (string * bool) :=
